@@ -49,14 +49,17 @@ v('c08-record-all-execute-unapplied','R-C08.3',T,"""                    pending_
                         app=app,
                         evolution_labels=get_evolution_sequence(app),
                         database=database_name)""",note='already-applied evolutions executed again')
-v('c08-fresh-app-executes','R-C08.3',T,"""            evolutions = get_evolution_sequence(app)
-        else:""","""            evolutions = get_evolution_sequence(app)
+v('c08-fresh-app-executes','R-C08.3',T,"""                    if label not in applied_evolutions
+                ]
+        else:""","""                    if label not in applied_evolutions
+                ]
             self.sql = (self.generate_mutations_info(
                 get_app_pending_mutations(app=app,
                                           evolution_labels=evolutions,
                                           database=database_name),
                 update_evolver=False) or {}).get('sql', [])
         else:""")
+v('c08-fresh-app-sql-in-batches','R-C08.3',T,"""                    if batch_task.app_sig_is_new:""","""                    if False:""",note='the defect fixed in 4591430')
 v('c08-record-hint-label','R-C08.3',T,"""                    evolutions = []
                     hinted_evolution = evolver.initial_diff.evolution()""","""                    evolutions = get_evolution_sequence(app)
                     hinted_evolution = evolver.initial_diff.evolution()""",note='hinted run records file evolutions it never executed')
